@@ -35,12 +35,14 @@ def derivative(poly: PolyLike, *diffvars: Union[ndpoly, str, int]) -> ndpoly:
 
     """
     poly = poly_ref = numpoly.aspolynomial(poly)
+    # positional indices refer to the indeterminants of the polynomial as given
+    names_ref = poly.names
 
     for diffvar in diffvars:
         if isinstance(diffvar, str):
             idx = poly.names.index(diffvar)
         elif isinstance(diffvar, int):
-            idx = diffvar
+            idx = poly.names.index(names_ref[diffvar])
         else:
             diffvar = numpoly.aspolynomial(diffvar)
             exponents, names = numpoly.remove_redundant_names(
